@@ -55,7 +55,7 @@ PROPS = {
         engine="step-harness",
     ),
     "C02": dict(
-        lean_modules=["Swim.Lemmas.Merge", "Swim.Props.C02"],
+        lean_modules=["Swim.Lemmas.Merge", "Swim.Props.C02", 'Swim.Model.Cluster', 'Swim.Props.Cluster', 'Swim.Props.ClusterG', 'Swim.Props.C02Cluster'],
         tests="^TestC02$",
         shards_quick=8,
         rule='table with the local node as target (own incarnation 1-3, left or not) x the same claim dimensions as C01, plus random histories in which 70% of the claims are about the local node incl. far-ahead and 2^32-2 / 2^32-1 incarnations; non-trivial/distinct as C01',
@@ -63,7 +63,7 @@ PROPS = {
                                   "time abstracted to recent/long-ago classes; Go monotonic clock gives distinct change stamps",
                                   "net.IPNet.Contains as the allow-list predicate; go-msgpack for decoding queued broadcasts in the hook"],
         assumptions=["calls are serialised by nodeLock (no concurrency in the model)", "incarnations below 2^32-1 where stated"],
-        level_text='Proof: refuteInc is strictly above every accusation below 2^32-1 (uint32 arithmetic, wrap witness at the excluded point); suspect/dead/alive accusations against the running local node yield a refutation (incarnation above the claim, record carries it, one alive broadcast, score+1) - Lean theorems over the model, tied by table + histories on the real code.',
+        level_text='Proof: refuteInc is strictly above every accusation below 2^32-1 (uint32 arithmetic, wrap witness at the excluded point); suspect/dead/alive accusations against the running local node yield a refutation (incarnation above the claim, record carries it, one alive broadcast, score+1); C02_history: the local record stays alive over every operation sequence. Cluster level (C02_cluster_bounded, C02_cluster_defends): in every history of the cluster model - any number of nodes, lossy/reordering/duplicating network, failed probes, timeouts, joins, updates, leaves - no record or claim about a member ever exceeds the incarnation the member itself reached, so the counter side conditions hold in every reachable state and a running node refutes every accusation that can reach it (induction over cluster histories). Lean theorems over the model, tied by table + histories on the real code (state, effects and claim content).',
         level_note="Trusted: as C01. Interpretation: an alive claim about the local node counts only if it passes the admission filters (version sanity, alive delegate, allow-list) and names the node's own address; a different address is the hijack clause of C08.",
         engine="step-harness",
     ),
@@ -81,7 +81,7 @@ PROPS = {
         engine="step-harness",
     ),
     "C08": dict(
-        lean_modules=["Swim.Lemmas.Merge", "Swim.Props.C08"],
+        lean_modules=["Swim.Lemmas.Merge", "Swim.Props.C08", 'Swim.Model.Cluster', 'Swim.Props.Cluster', 'Swim.Props.ClusterG', 'Swim.Props.C08Cluster'],
         tests="^TestC08(Sim)?$",
         shards_quick=8,
         rule='the C01 table (address same/other/disallowed/v4-mapped x prior state x aged x reclaim) judged by the hijack/reuse/departure predicate, plus random histories with Leave; non-trivial/distinct as C01',
@@ -89,7 +89,7 @@ PROPS = {
                                   "time abstracted to recent/long-ago classes; Go monotonic clock gives distinct change stamps",
                                   "net.IPNet.Contains as the allow-list predicate; go-msgpack for decoding queued broadcasts in the hook"],
         assumptions=["calls are serialised by nodeLock (no concurrency in the model)", "incarnations below 2^32-1 where stated"],
-        level_text="Proof (partial): conflict keeps the address and fires the callback, reclaim rules, departure recorded as left, no resurrection by alive claims no newer than the departure - Lean theorems over the model tied by table + histories. The 'Leave returned nil so a peer was sent the departure' clause is covered by the simulator leg.",
+        level_text="Proof (partial): conflict keeps the address and fires the callback, reclaim rules, departure recorded as left, no resurrection by alive claims no newer than the departure; cluster level (C08_cluster_left_is_left): in every history of the cluster model a member is recorded as left by anybody, or announced as departed on the network, only if it called Leave - Lean theorems over the model tied by table + histories. The 'Leave returned nil so a peer was sent the departure' clause is covered by the simulator leg.",
         level_note='Trusted: as C01. Known findings: second Leave after a timed-out Leave returns nil without sending; tombstone expiry allows resurrection (protocol design).',
         engine="step-harness",
     ),
@@ -283,7 +283,7 @@ PROPS = {
         engine="cluster-simulator",
     ),
     "C05": dict(
-        lean_modules=['Swim.Lemmas.Merge', 'Swim.Props.C02', 'Swim.Props.C09', 'Swim.Props.C05'],
+        lean_modules=['Swim.Lemmas.Merge', 'Swim.Props.C02', 'Swim.Props.C09', 'Swim.Props.C05', 'Swim.Model.Cluster', 'Swim.Props.Cluster', 'Swim.Props.ClusterG', 'Swim.Props.C02Cluster', 'Swim.Props.C05Cluster'],
         tests="^TestC05$",
         timeout_quick=400,
         shards_quick=4,
@@ -292,7 +292,7 @@ PROPS = {
                                   "the simulator transport (non-blocking delivery, latency/loss/duplication/partition injection, net.Pipe streams)",
                                   "math/rand target selection is seeded but goroutine scheduling is not fully deterministic: the recorded outcome is the replay artifact"],
         assumptions=["goroutine scheduling delays and real network timing are not modelled (virtual time)"],
-        level_text="Proof (partial): an accusation is overridden wherever the accused's newer alive claim is delivered; the accused always produces such a claim; a state exchange only moves views forward (Lean). Convergence itself is classified by the simulator on every history.",
+        level_text="Proof (partial): an accusation is overridden wherever the accused's newer alive claim is delivered; the accused always produces such a claim; a state exchange only moves views forward. Cluster level: in every history of the cluster model every accusation held by anybody is bounded by the accused member's own incarnation (C02_cluster_bounded), the running accused refutes it when it hears of it (C02_cluster_defends), and any newer alive claim in flight - gossip or state entry - clears it wherever it is delivered, the address condition being an invariant (C05_cluster_override, C05_cluster_state_override) (Lean, induction over cluster histories). Convergence itself (that the deliveries happen) is classified by the simulator on every history.",
         level_note='Partial: settling time and convergence depend on random target selection. Known finding C05-stable-split (protocol-level, no re-join mechanism); every other non-converged final state is reported.',
         engine="cluster-simulator",
     ),
